@@ -233,6 +233,7 @@ type c12Gen struct {
 	r *vh.Rand
 	// knobs (percent)
 	nilPtr  int
+	nilCont int // nil probability of a pointer whose base type is a slice/map (the encoder rejects those: known finding)
 	budget  int // remaining node budget
 	special bool
 }
@@ -388,7 +389,17 @@ func (g *c12Gen) gen(t reflect.Type, depth int) reflect.Value {
 	case reflect.String:
 		v.SetString(g.str())
 	case reflect.Ptr:
-		if g.r.Chance(g.nilPtr) || depth > 7 || g.budget <= 0 {
+		pn := g.nilPtr
+		base := t.Elem()
+		for base.Kind() == reflect.Ptr {
+			base = base.Elem()
+		}
+		if base.Kind() == reflect.Slice || base.Kind() == reflect.Map {
+			pn = g.nilCont
+		} else if depth > 7 || g.budget <= 0 {
+			pn = 100
+		}
+		if g.r.Chance(pn) {
 			return v // nil
 		}
 		p := reflect.New(t.Elem())
